@@ -12,9 +12,10 @@
    to that of character i+1.  Every other construct (sequencing, alternation, groups, quantifiers, lookarounds,
    backreferences, anchors, legacy classes, strings in classes) is validated, not proved. *)
 From RV Require Import Base.
-From RV.Model Require Import Utf8 Indexer CodePointSet Insn Fold IR Unfold ClassSet.
+From RV.Model Require Import Utf8 Indexer CodePointSet Insn Fold IR Unfold ClassSet Optimizer Emit Pike BT Exec.
+From RV.Properties Require Import C03.
 From RV.Spec Require Import Spec IRSem IRShape.
-From RV.Proofs Require Import QuantSim SearchSim Closure ClassSetProofs Utf8Facts Utf8Valid ClassAtom SeqSim.
+From RV.Proofs Require Import QuantSim SearchSim PikeTop OptTop OptEmit Agree BTTop Closure ClassSetProofs Utf8Facts Utf8Valid ClassAtom SeqSim.
 
 Theorem c01_class_atom_is_the_reference : forall foldf unicode utf16 pre post c icase e f f' G caps,
   wf_text (pre ++ c :: post) -> vwf e = true -> sfree e = true ->
@@ -260,6 +261,73 @@ Proof.
   cbn [seq_of make_cat length] in Ht.
   eexists _, _, _. split; [exact Ht|]. intros ng tries i Hi Htr.
   apply (c01_first_match_of_fragment foldf false utf16 cs unfold_char Hw _ _ _ _ _ Ht ng _ _ (le_n _) (le_n _) tries i Hi Htr).
+Qed.
+
+(* down to the executor: for a pattern of the fragment, the PikeVM model, running the program emitted for the IR the parser
+   returns - and the program emitted for the optimized IR - answers with the match the reference search prescribes
+   (composition with C03: optimizer soundness on parser-shaped IR, emitter + PikeVM correctness; qok / parsed / ir_wf /
+   top_shape are the decidable shape conditions the driver evaluates on every IR) *)
+Theorem c01_fragment_down_to_the_pikevm :
+  forall fold h cs utf16 unicode ml eqclass r x P kr kn n' body' prog names prog' names',
+  utf8_chars (length h) h = Some cs -> short h ->
+  gden fold unicode utf16 cs eqclass r x P kr kn ->
+  optimize utf16 (NCat [x; NGoal]) = Ok n' -> qok (NCat [x; NGoal]) = true -> parsed (NCat [x; NGoal]) = true -> top_shape n' body' ->
+  emit utf16 unicode ml (NCat [x; NGoal]) = Ok (prog, names) -> emit utf16 unicode ml n' = Ok (prog', names') ->
+  ir_wf (NCat [x]) = true -> ir_wf (NCat body') = true ->
+  forall tries i, (i <= length cs)%nat -> (length cs - i < tries)%nat ->
+  exists res,
+    proj_es cs (search (fun c => fold_code_point c unicode) eqclass (map dec cs) (S kr) r (p_groups prog) i tries) = proj_ir (Some res) /\
+    exists f0 k k', forall pfuel m budget, (f0 <= pfuel)%nat -> (m + k <= budget)%N -> (m + k' <= budget)%N ->
+      pk_search (utf8_indexer fold) prog h budget pfuel tries (pk_init_state prog (off cs i)) m = (result_of (utf8_indexer fold) h res, (m + k)%N) /\
+      pk_search (utf8_indexer fold) prog' h budget pfuel tries (pk_init_state prog' (off cs i)) m = (result_of (utf8_indexer fold) h res, (m + k')%N).
+Proof.
+  intros fold h cs utf16 unicode ml eqclass r x P kr kn n' body' prog names prog' names' Hch Hsh Hd Eo Hq Hp Ht' Ee Ee' Hwf Hwf' tries i Hi Htr.
+  destruct (utf8_chars_ok _ _ _ Hch) as [Hw Hcat].
+  pose proof (gden_top fold unicode utf16 cs eqclass r x P kr kn Hd) as Hd'.
+  destruct (first_match_of_fragment fold unicode utf16 cs Hw eqclass r _ P kr (S kn) Hd' (p_groups prog) kr (S kn) (le_n _) (le_n _) tries i Hi Htr) as [Epr _].
+  pose proof (search_total fold unicode utf16 cs eqclass r _ P kr (S kn) Hd' (p_groups prog) kr (le_n _) tries i) as Hne.
+  change (ir_top (NCat [x; NGoal])) with (NCat [x]) in Epr. rewrite Hcat in Epr.
+  destruct (ir_search (utf8_indexer fold) unicode utf16 h (S (S kn)) (NCat [x]) (p_groups prog) tries (off cs i)) as [res|] eqn:Es.
+  - exists res. split; [exact Epr|].
+    assert (Hts : top_shape (NCat [x; NGoal]) [x]) by (left; reflexivity).
+    exact (c03_pikevm_same_answer_after_optimize fold h cs utf16 unicode ml (NCat [x; NGoal]) n' [x] body' prog names prog' names' Hch Hsh Eo Hq Hp Hts Ht' Ee Ee' Hwf Hwf'
+             (S (S kn)) tries (off cs i) res (bnd_off cs i) Es).
+  - exfalso. destruct (search (fun c => fold_code_point c unicode) eqclass (map dec cs) (S kr) r (p_groups prog) i tries) as [[[[s e] c]|]|]; [discriminate Epr|discriminate Epr|apply Hne; reflexivity].
+Qed.
+
+(* and to the backtracking executor (without prefilter; C04 is about the prefilter): on the program emitted for the
+   optimized IR both executor models answer with the match the reference search prescribes *)
+Theorem c01_fragment_down_to_both_executors :
+  forall fold h cs utf16 unicode ml eqclass r x P kr kn n' body' prog names prog' names',
+  utf8_chars (length h) h = Some cs -> short h ->
+  gden fold unicode utf16 cs eqclass r x P kr kn ->
+  optimize utf16 (NCat [x; NGoal]) = Ok n' -> qok (NCat [x; NGoal]) = true -> parsed (NCat [x; NGoal]) = true -> top_shape n' body' ->
+  emit utf16 unicode ml (NCat [x; NGoal]) = Ok (prog, names) -> emit utf16 unicode ml n' = Ok (prog', names') ->
+  bt_wf (p_groups prog') (NCat body') = true ->
+  forall tries i, (i <= length cs)%nat -> (length cs - i < tries)%nat -> walk_ok (utf8_indexer fold) h tries (off cs i) = true ->
+  exists res,
+    proj_es cs (search (fun c => fold_code_point c unicode) eqclass (map dec cs) (S kr) r (p_groups prog) i tries) = proj_ir (Some res) /\
+    exists f0 kb kp, forall pfuel nb np budget, (f0 <= pfuel)%nat -> (nb + kb <= budget)%N -> (np + kp <= budget)%N ->
+      xobs (fst (bt_search (utf8_indexer fold) prog' h budget pfuel (fun _ => true) tries (bt_init prog') (off cs i) nb)) = result_of (utf8_indexer fold) h res /\
+      fst (pk_search (utf8_indexer fold) prog' h budget pfuel tries (pk_init_state prog' (off cs i)) np) = result_of (utf8_indexer fold) h res.
+Proof.
+  intros fold h cs utf16 unicode ml eqclass r x P kr kn n' body' prog names prog' names' Hch Hsh Hd Eo Hq Hp Ht' Ee Ee' Hwf' tries i Hi Htr Hwalk.
+  destruct (utf8_chars_ok _ _ _ Hch) as [Hw Hcat].
+  pose proof (gden_top fold unicode utf16 cs eqclass r x P kr kn Hd) as Hd'.
+  destruct (first_match_of_fragment fold unicode utf16 cs Hw eqclass r _ P kr (S kn) Hd' (p_groups prog) kr (S kn) (le_n _) (le_n _) tries i Hi Htr) as [Epr _].
+  pose proof (search_total fold unicode utf16 cs eqclass r _ P kr (S kn) Hd' (p_groups prog) kr (le_n _) tries i) as Hne.
+  rewrite Hcat in Epr.
+  destruct (ir_search (utf8_indexer fold) unicode utf16 h (S (S kn)) (ir_top (NCat [x; NGoal])) (p_groups prog) tries (off cs i)) as [res|] eqn:Es.
+  - exists res. split; [exact Epr|].
+    destruct (optimize_invariants utf16 _ n' Eo Hq) as [Hq' Hng].
+    assert (Hg : p_groups prog' = p_groups prog).
+    { rewrite (emit_program_groups utf16 unicode ml _ prog names Hq Ee), (emit_program_groups utf16 unicode ml n' prog' names' Hq' Ee'). exact Hng. }
+    destruct (c03_optimize_sound_utf8_text_all_patterns fold unicode utf16 h cs Hch Hsh utf16 _ n' Eo Hq Hp) as [K HK].
+    pose proof (HK _ (p_groups prog) tries (off cs i) res (bnd_off cs i) Es) as Es'.
+    rewrite (top_shape_ir_top n' body' Ht') in Es'. rewrite <- Hg in Es'.
+    destruct (engines_agree_utf8 fold h utf16 unicode ml n' body' prog' names' _ tries (off cs i) res Hwalk Ht' Ee' Hwf' Es') as (f0 & kb & kp & H).
+    exists f0, kb, kp. intros pfuel nb np budget Hf Hb Hk. destruct (H pfuel nb np budget Hf Hb Hk) as [H1 H2]. split; [rewrite H1; exact H2|exact H2].
+  - exfalso. destruct (search (fun c => fold_code_point c unicode) eqclass (map dec cs) (S kr) r (p_groups prog) i tries) as [[[[s e] c]|]|]; [discriminate Epr|discriminate Epr|apply Hne; reflexivity].
 Qed.
 
 (* the three kinds of atoms *)
